@@ -22,6 +22,8 @@ variable (n : Node) (tp : Nat → TpDev) (sl : List Slot) (out : List Delivery) 
 @[simp] theorem upd_flavor : (n.upd tp sl out fs rxq).s.flavor = n.s.flavor := rfl
 @[simp] theorem upd_claimMode : (n.upd tp sl out fs rxq).s.claimMode = n.s.claimMode := rfl
 @[simp] theorem upd_onlyKnown : (n.upd tp sl out fs rxq).onlyKnown = n.onlyKnown := rfl
+@[simp] theorem upd_info : (n.upd tp sl out fs rxq).info = n.info := rfl
+@[simp] theorem upd_conf : (n.upd tp sl out fs rxq).conf = n.conf := rfl
 @[simp] theorem upd_ring : (n.upd tp sl out fs rxq).s.ring = n.s.ring := rfl
 @[simp] theorem upd_pushes (gs : List Frame) : (n.upd tp sl out fs rxq).pushes gs = n.upd tp sl out (fs ++ gs) rxq := rfl
 @[simp] theorem upd_setTp (i : Nat) (t : TpDev) :
@@ -49,20 +51,44 @@ theorem claimTick_solo (n : Node) (d : Dev) (hd : n.s.devs = [d]) (hq : Quiet n.
   simp [hd, this]
   rw [← hd]
 
-theorem pendingAll_solo (n : Node) (d : Dev) (hd : n.s.devs = [d]) :
+/-- no product / configuration information answer is waiting for a retry -/
+def InfoIdle (n : Node) (i : Nat) : Prop := (n.info i).pendProd = none ∧ (n.info i).pendConf = none
+
+theorem pendingTP_info (n : Node) (i : Nat) : (pendingTP n i).info = n.info := by
+  unfold pendingTP
+  simp only []
+  by_cases h1 : (n.tp i).pend.pgn ≠ 0 ∧ (n.tp i).timer.isTime n.s.flavor n.s.now = true
+  · rw [if_pos h1]
+    by_cases h2 : (n.tp i).pend.dst = 0xff
+    · rw [if_pos h2]
+      by_cases h3 : hasAllSent (setTimer (sendTPDT n i).1 i 50) i = true
+      · rw [if_pos h3]; rfl
+      · rw [if_neg h3]; rfl
+    · rw [if_neg h2]; rfl
+  · rw [if_neg h1]
+
+/-- without a waiting retry only the transport part of `SendPendingInformation` acts -/
+theorem pendingDev_idle (n : Node) (i : Nat) (h : InfoIdle n i) : pendingDev n i = pendingTP n i := by
+  unfold pendingDev
+  have hp : ((pendingTP n i).info i).pendProd = none := by rw [pendingTP_info]; exact h.1
+  have hc : ((pendingTP n i).info i).pendConf = none := by rw [pendingTP_info]; exact h.2
+  simp only [hp, due, Bool.false_eq_true, ↓reduceIte, hc]
+  cases (pendingTP n i).conf <;> rfl
+
+theorem pendingAll_solo (n : Node) (d : Dev) (hd : n.s.devs = [d]) (hi : InfoIdle n 0) :
     pendingAll n = if (n.tp 0).hasPending then pendingTP n 0 else n := by
   unfold pendingAll
-  simp [hd, List.range_succ]
+  simp [hd, List.range_succ, pendingDev_idle n 0 hi]
 
 theorem pendingTP_notdue (n : Node) (i : Nat) (h : (n.tp i).timer.isTime n.s.flavor n.s.now = false) : pendingTP n i = n := by
   unfold pendingTP; simp [h]
 
 /-- a poll of a quiet single-device node whose transport timer is not due: only the received frames are handled -/
-theorem poll_solo (n : Node) (d : Dev) (hd : n.s.devs = [d]) (hq : Quiet n.s 0)
+theorem poll_solo (n : Node) (d : Dev) (hd : n.s.devs = [d]) (hq : Quiet n.s 0) (hi : InfoIdle n 0)
     (ht : (n.tp 0).hasPending = true → (n.tp 0).timer.isTime n.s.flavor n.s.now = false) (hlen : n.rxq.length ≤ 20) :
     poll n = claimTick { (rxList n.rxq n) with rxq := [] } := by
   unfold poll
-  rw [flush_quiet n 0 hq, pendingAll_solo n d hd]
+  rw [flush_quiet n 0 hq, pendingAll_solo n d hd hi]
   have h1 : (if (n.tp 0).hasPending = true then pendingTP n 0 else n) = n := by
     by_cases hp : (n.tp 0).hasPending = true
     · rw [if_pos hp, pendingTP_notdue n 0 (ht hp)]
@@ -70,9 +96,9 @@ theorem poll_solo (n : Node) (d : Dev) (hd : n.s.devs = [d]) (hq : Quiet n.s 0)
   rw [h1, List.take_of_length_le hlen, List.drop_of_length_le hlen]
 
 /-- a poll with nothing to receive and no timer due changes nothing: extra polls in a schedule are harmless -/
-theorem poll_idle (n : Node) (d : Dev) (hd : n.s.devs = [d]) (hq : Quiet n.s 0)
+theorem poll_idle (n : Node) (d : Dev) (hd : n.s.devs = [d]) (hq : Quiet n.s 0) (hi : InfoIdle n 0)
     (ht : (n.tp 0).hasPending = true → (n.tp 0).timer.isTime n.s.flavor n.s.now = false) (hrx : n.rxq = []) : poll n = n := by
-  rw [poll_solo n d hd hq ht (by simp [hrx]), hrx]
+  rw [poll_solo n d hd hq hi ht (by simp [hrx]), hrx]
   simp only [rxList, List.foldl_nil]
   have : ({ n with rxq := [] } : Node) = n := by rw [← hrx]
   rw [this]
@@ -175,7 +201,7 @@ theorem handleCTS_grant (n : Node) (i src b1 b2 : Nat) (d : Dev) (hq : Quiet n.s
 
 /-- **the sender polls with a CTS (window `c`, next packet `seq+1`) in its receive queue** -/
 theorem poll_cts (a : Node) (d : Dev) (m : Msg) (peer seq t0 tmo np : Nat) (sl : List Slot) (out : List Delivery)
-    (hd : a.s.devs = [d]) (hq : Quiet a.s 0) (hm : m.dst = peer) (hpeer : peer < 255) (hlen : m.len ≤ 223)
+    (hd : a.s.devs = [d]) (hq : Quiet a.s 0) (hi : InfoIdle a 0) (hm : m.dst = peer) (hpeer : peer < 255) (hlen : m.len ≤ 223)
     (hpgn : m.pgn < 2^24) (htmo : tmo ≤ 100) (ht0 : t0 ≤ a.s.now ∧ a.s.now < t0 + tmo) (h64 : a.s.now + 100 < M64) (hseq : seq < 255) :
     poll (a.upd (txTp a m seq t0 tmo) sl out [] [cmFrame peer d.source (ctsBytes m.pgn np (seq + 1))]) =
       a.upd (txTp a m (seq + min (tpCtsPackets np) (tpPacketCount m.len - seq)) a.s.now 100) sl out
@@ -191,7 +217,7 @@ theorem poll_cts (a : Node) (d : Dev) (m : Msg) (peer seq t0 tmo np : Nat) (sl :
     subst hN
     simp only [upd_tp, txTp, ↓reduceIte, upd_flavor, upd_now]
     exact isTime_fromNow_early _ _ _ _ ht0.1 ht0.2 (by omega) (by omega)
-  rw [poll_solo N d hNd hNq (fun _ => hNt) (by subst hN; simp)]
+  rw [poll_solo N d hNd hNq (by subst hN; exact hi) (fun _ => hNt) (by subst hN; simp)]
   have hrx : N.rxq = [cmIn peer d.source (ctsBytes m.pgn np (seq + 1))] := by subst hN; rfl
   rw [hrx]
   simp only [rxList, List.foldl_cons, List.foldl_nil]
